@@ -47,18 +47,20 @@ pub struct GraphCase {
     /// odd files use the `stem.v2.txtpp.txt` source shape (output `stem.v2.txt`): dependency
     /// detection has to map the dotted output name back to that source
     pub shaped: bool,
+    /// every file also runs `cat big.txt` (100 KB, more than a pipe buffer) after its dependency directives
+    pub big: bool,
 }
 
 impl GraphCase {
     pub fn new(n: usize, mask: u64) -> Self {
-        Self { n, mask, kinds: 0, requested: (0..n).collect(), input_style: 0, threads: 2, stale: true, dup_edges: false, markers: true, obs: false, mode: Mode::Build, subdirs: false, fail_at: None, fail_kind: 0, after_only: false, vanish: false, slow_ms: 0, shaped: false }
+        Self { n, mask, kinds: 0, requested: (0..n).collect(), input_style: 0, threads: 2, stale: true, dup_edges: false, markers: true, obs: false, mode: Mode::Build, subdirs: false, fail_at: None, fail_kind: 0, after_only: false, vanish: false, slow_ms: 0, shaped: false, big: false }
     }
     pub fn graph(&self) -> Graph {
         Graph::from_mask(self.n, self.mask, self.kinds)
     }
     pub fn to_json(&self, spec: &Spec) -> Value {
         json!({"kind": "graph", "n": self.n, "mask": self.mask, "kinds": self.kinds, "requested": self.requested, "input_style": self.input_style, "threads": self.threads,
-            "stale": self.stale, "dup_edges": self.dup_edges, "markers": self.markers, "obs": self.obs, "mode": mode_name(&self.mode), "subdirs": self.subdirs, "fail_at": self.fail_at, "fail_kind": self.fail_kind, "after_only": self.after_only, "vanish": self.vanish, "slow_ms": self.slow_ms, "shaped": self.shaped,
+            "stale": self.stale, "dup_edges": self.dup_edges, "markers": self.markers, "obs": self.obs, "mode": mode_name(&self.mode), "subdirs": self.subdirs, "fail_at": self.fail_at, "fail_kind": self.fail_kind, "after_only": self.after_only, "vanish": self.vanish, "slow_ms": self.slow_ms, "shaped": self.shaped, "big": self.big,
             "edges": self.graph().edges.iter().enumerate().map(|(i, e)| format!("f{i} -> {:?}", e.iter().map(|(j, k)| format!("f{j}{}", if *k == EdgeKind::AfterCat { "(after+cat)" } else { "" })).collect::<Vec<_>>())).collect::<Vec<_>>(),
             "schedule": spec_json(spec)})
     }
@@ -83,12 +85,13 @@ impl GraphCase {
                 vanish: v["vanish"].as_bool().unwrap_or(false),
                 slow_ms: v["slow_ms"].as_u64().unwrap_or(0) as u32,
                 shaped: v["shaped"].as_bool().unwrap_or(false),
+                big: v["big"].as_bool().unwrap_or(false),
             },
             spec_from_json(&v["schedule"]),
         )
     }
     pub fn hash(&self) -> u64 {
-        crate::util::hash_str(&format!("{:?}", (self.n, self.mask, self.kinds, &self.requested, self.input_style, self.threads, self.stale, self.dup_edges, self.subdirs, mode_name(&self.mode), (self.fail_at, self.fail_kind, self.after_only, self.vanish, self.shaped))))
+        crate::util::hash_str(&format!("{:?}", (self.n, self.mask, self.kinds, &self.requested, self.input_style, self.threads, self.stale, self.dup_edges, self.subdirs, mode_name(&self.mode), (self.fail_at, self.fail_kind, self.after_only, self.vanish, self.shaped, self.big))))
     }
     fn dir_of(&self, i: usize) -> &'static str {
         if self.subdirs && i % 2 == 1 {
@@ -156,7 +159,7 @@ pub struct GraphRun {
 fn build_files(case: &GraphCase, generation: u32, marker_log: Option<&str>, obs_log: Option<&str>) -> Files {
     let g = case.graph();
     let flat = graph_files(&g, generation, 0xabc0 + case.mask, if case.markers { marker_log } else { None }, if case.obs { obs_log } else { None }, case.dup_edges);
-    if !case.subdirs && case.fail_at.is_none() && !case.after_only && !case.vanish && case.slow_ms == 0 && !case.shaped {
+    if !case.subdirs && case.fail_at.is_none() && !case.after_only && !case.vanish && case.slow_ms == 0 && !case.shaped && !case.big {
         return flat;
     }
     // re-home odd files into d/ and rewrite references accordingly; inject the failing command
@@ -205,11 +208,18 @@ fn build_files(case: &GraphCase, generation: u32, marker_log: Option<&str>, obs_
             };
             out.insert_str(idx, line);
         }
+        if case.big {
+            let idx = out.rfind(&format!("{}:tail:", graph_name(i))).unwrap_or(out.len());
+            out.insert_str(idx, &format!("<!--TXTPP#run cat {}big.txt\n", if case.dir_of(i).is_empty() { "" } else { "../" }));
+        }
         if case.vanish && i == 0 {
             let idx = out.rfind(&format!("{}:tail:", graph_name(i))).unwrap_or(out.len());
             out.insert_str(idx, "<!--TXTPP#run rm -rf gone\n");
         }
         files.insert(case.src_of(i), out.into_bytes());
+    }
+    if case.big {
+        files.insert("big.txt".into(), (0..2500).map(|i| format!("big line {i:05} ........................\n")).collect::<String>().into_bytes());
     }
     if case.fail_at.is_some() && case.fail_kind == 4 {
         for d in ["", "d/"] {
